@@ -733,7 +733,7 @@ class SymInt(object):
         if nd is None:
             return self
         if isinstance(nd, (SymInt, SymBool)):
-            nd = concretize_int(nd, -30, 30, 'round digits')
+            nd = concretize_int(nd, -70, 70, 'round digits')
         if nd >= 0:
             return self
         m = 10 ** (-nd)
